@@ -6,7 +6,8 @@
    the kernel in Oblig/C08_v2_X.v; the failing structures are listed in those statements. *)
 From Coq Require Import List Bool Arith ZArith NArith Init.Byte.
 From HL7 Require Import Lib.Str Model.Ec Model.Result Model.Ref Model.Tree Model.Parser Model.Encode
-                        Model.MsgTree Model.Groups Model.Message Proofs.GroupsFacts Proofs.GroupsEnc Proofs.GroupsMirror.
+                        Model.MsgTree Model.Groups Model.Message Proofs.GroupsFacts Proofs.GroupsEnc Proofs.GroupsMirror
+                        Proofs.PiecesFacts Proofs.LineEnds.
 From HL7 Require Gen.Tables_v2_3.
 Import ListNotations.
 Open Scope bs_scope.
@@ -19,7 +20,11 @@ Open Scope res_scope.
    ne_tree x                        every group of x has at least one child
    enc_gforest g f                  Group.to_er7 under TOLERANT (insertion order, CR-joined) with g
                                     encoding one segment
-   parse_segments_grouped           the same loop on the CR-separated pieces of a message text *)
+   parse_segments_grouped           the same loop on the CR-separated pieces of a message text
+   pieces text                      the items of that loop: text.split(CR), every piece STRIPPED, the pieces
+                                    that are empty after stripping skipped (parser.py strips the piece before
+                                    it takes the segment name s[:3]; C08_pieces_stripped)
+   crlf text                        text.replace(CR, CR LF) *)
 
 (* ---- order: flattening the forest yields exactly the input sequence (ALL sequences, ALL
         structures; the nodes hold the upper-cased names, as Segment.name does) ---- *)
@@ -31,8 +36,8 @@ Proof.
 Qed.
 Print Assumptions C08_order.
 
-(* the same on real segments: one parsed segment per non-empty piece of the text, in order, each
-   parsed from its own piece (with the reference found, or with none) *)
+(* the same on real segments: one parsed segment per non-blank piece of the text, in order, each
+   parsed from its own (stripped) piece (with the reference found, or with none) *)
 Theorem C08_order_segments : forall t lvl e leaf root text nodes,
   parse_segments_grouped t lvl e leaf root text = Ok nodes ->
   Forall2 (fun piece s => exists r, seg_of_piece t lvl e leaf piece r = Ok s) (pieces text) (flatten nodes).
@@ -101,7 +106,7 @@ Proof. intros t root names f fuel H. apply C08_sound. now apply (tab_ok_sound t 
 Print Assumptions C08_sound_checked.
 
 (* on real segments: groups declared, every segment that was parsed with a reference is a declared
-   child named like the first three characters of its piece of text *)
+   child named like the first three characters of its STRIPPED piece of text *)
 Theorem C08_sound_segments : forall t lvl e leaf root text f,
   groups_by_name t root ->
   parse_segments_grouped_trees t lvl e leaf root text = Ok f ->
@@ -150,6 +155,64 @@ Proof.
   f_equal. exact (C08_same_encoding_segments t lvl e leaf root text f g H).
 Qed.
 Print Assumptions C08_same_encoding_message.
+
+(* ---- line ends.  parse_segments strips every CR-separated piece BEFORE it takes the segment name and
+        skips the pieces that are blank after stripping (the name used to be taken from the unstripped
+        piece: with CR LF line ends it was "\nPI", found in no group, and parse_message silently
+        returned a flat tree; a trailing CR LF raised InvalidName). ---- *)
+
+(* every item of the loop is stripped and non-empty: `take 3` in the theorems above is the first three
+   characters of the stripped piece *)
+Theorem C08_pieces_stripped : forall text, Forall (fun p => strip p = p /\ p <> []) (pieces text).
+Proof. exact pieces_stripped_nonempty. Qed.
+Print Assumptions C08_pieces_stripped.
+
+(* LF after every CR changes nothing: same forest (also same errors), grouped and flat, and the same
+   result of parse_message at every level and in both group modes *)
+Theorem C08_crlf_same_forest : forall t lvl e leaf root text,
+  parse_segments_grouped_trees t lvl e leaf root (crlf text) = parse_segments_grouped_trees t lvl e leaf root text.
+Proof. exact crlf_same_forest. Qed.
+Print Assumptions C08_crlf_same_forest.
+
+Theorem C08_crlf_same_flat : forall t lvl e leaf text,
+  parse_segments_flat t lvl e leaf (crlf text) = parse_segments_flat t lvl e leaf text.
+Proof. exact crlf_same_flat. Qed.
+Print Assumptions C08_crlf_same_flat.
+
+Theorem C08_crlf_same_message : forall lib dflt lvl fg text,
+  parse_message lib dflt lvl fg (crlf text) = parse_message lib dflt lvl fg text.
+Proof. exact parse_message_crlf. Qed.
+Print Assumptions C08_crlf_same_message.
+
+(* blanks around the lines: two CR-joined sequences of (CR-free) lines that agree line by line after
+   stripping give the same forest *)
+Theorem C08_blank_padding_same_forest : forall t lvl e leaf root lines lines',
+  lines <> [] -> lines' <> [] ->
+  Forall (fun l => bmem CR l = false) lines -> Forall (fun l => bmem CR l = false) lines' ->
+  map strip lines = map strip lines' ->
+  parse_segments_grouped_trees t lvl e leaf root (bjoin CR lines) =
+  parse_segments_grouped_trees t lvl e leaf root (bjoin CR lines').
+Proof. exact padding_same_forest. Qed.
+Print Assumptions C08_blank_padding_same_forest.
+
+(* a blank tail after a final CR (trailing CR, CR LF, CR blank ...) adds nothing *)
+Theorem C08_trailing_blank_same_forest : forall t lvl e leaf root text tail,
+  forallb is_space tail = true -> bmem CR tail = false ->
+  parse_segments_grouped_trees t lvl e leaf root (text ++ CR :: tail) =
+  parse_segments_grouped_trees t lvl e leaf root text.
+Proof. exact trailing_blank_same_forest. Qed.
+Print Assumptions C08_trailing_blank_same_forest.
+
+(* the reproducer: CR LF line ends (and a trailing CR LF, and blank-padded lines) get their groups *)
+Example C08_crlf_example :
+  let lines := map unbs ["MSH|^~\&|A|B|C|D|20200101||ORU^R01|1|P|2.3"; "PID|1"; "OBR|1"; "OBX|1"] in
+  let lib := fun v : str => if streqb v "2.3" then Some Gen.Tables_v2_3.tables else None in
+  let dump := fun text => match parse_message lib "2.3" TOLERANT true text with
+                          | Ok (_, m) => dump_message m | Err _ => [] end in
+  dump (bjoins [CR; LF] lines ++ [CR; LF])
+    = "ORU_R01:MSH (ORU_R01_RESPONSE (ORU_R01_PATIENT PID) (ORU_R01_ORDER_OBSERVATION OBR (ORU_R01_OBSERVATION OBX)))" /\
+  dump (bjoins [CR; LF] (map (fun l => " " ++ l ++ " ") lines)) = dump (bjoin CR lines).
+Proof. split; vm_compute; reflexivity. Qed.
 
 (* ---- determinism: the search is a function of (tables, reference, sequence) ---- *)
 Theorem C08_deterministic : forall t root names r1 r2,
